@@ -7,6 +7,8 @@ The ledger lives in harness memory: it models side effects outside the database.
 
 from __future__ import annotations
 
+import copy
+
 import threading
 from typing import Any
 
@@ -36,8 +38,34 @@ def _seen(ctx: dict[str, Any]) -> dict[str, Any]:
     out = {}
     for k, v in ctx.items():
         if k.startswith("k_") or k in ("_signal_name", "_signal_data", "_jump_count") or k.startswith("_prog") or k.startswith("_poll"):
-            out[k] = v
+            out[k] = copy.deepcopy(v) if isinstance(v, (list, dict)) else v
     return out
+
+
+def _progress(ctx: dict[str, Any], key: str, shape: str) -> tuple[int, Any]:
+    """(attempts recorded so far, value to attach for the next attempt).  Shapes other than 'int' keep the progress in a
+    container, the way a task accumulates finished items; '-inplace' mutates the object it took out of stage.context."""
+    if shape == "int":
+        n = ctx.get(key, 0)
+        return n, n + 1
+    if shape == "list-fresh":
+        old = ctx.get(key) or []
+        return len(old), list(old) + [len(old)]
+    if shape == "list-inplace":
+        lst = ctx.get(key)
+        if lst is None:
+            lst = []
+        n = len(lst)
+        lst.append(n)
+        return n, lst
+    if shape == "dict-inplace":
+        d = ctx.get(key)
+        if d is None:
+            d = {}
+        n = len(d)
+        d[f"i{n}"] = n
+        return n, d
+    raise ValueError(shape)
 
 
 def _emit(spec_task: dict[str, Any], label: str, ctx: dict[str, Any]) -> dict[str, Any]:
@@ -83,14 +111,17 @@ def make_task_class(index: int):
                 return TaskResult.terminal("scripted failure")
             if b == "poll":
                 key = f"_poll{index}"
-                n = ctx.get(key, 0)
+                n, nxt = _progress(ctx, key, spec.get("prog", "int"))
                 if n < spec.get("k", 1):
-                    return TaskResult.running(context={key: n + 1})
+                    return TaskResult.running(context={key: nxt})
                 return TaskResult.success(outputs=_emit(spec, label, ctx))
             if b == "transient":
                 key = f"_prog{index}"
-                n = ctx.get(key, 0)
                 k = spec.get("k", 1)
+                if spec.get("upd", True):
+                    n, nxt = _progress(ctx, key, spec.get("prog", "int"))
+                else:
+                    n, nxt = ctx.get(key, 0), None
                 if k < 0 or n < k:
                     if spec.get("upd", True):
                         style = spec.get("raise", "bare")
@@ -99,11 +130,11 @@ def make_task_class(index: int):
                             try:
                                 raise ConnectionError("low-level failure")
                             except ConnectionError as low:
-                                raise TransientError("scripted transient failure", context_update={key: n + 1}) from low
+                                raise TransientError("scripted transient failure", context_update={key: nxt}) from low
                         if style == "cause":
                             raise TransientError("scripted transient failure", cause=TimeoutError("low-level timeout"),
-                                                 context_update={key: n + 1})
-                        raise TransientError("scripted transient failure", context_update={key: n + 1})
+                                                 context_update={key: nxt})
+                        raise TransientError("scripted transient failure", context_update={key: nxt})
                     # without a context update the task cannot count; it fails until the harness-visible
                     # attempt counter (ledger) reaches k
                     with _LOCK:
